@@ -278,6 +278,31 @@ where
             let acc = ps.map(|p| p.verify(pk, Some(&msgs), hdr).is_ok()).unwrap_or(false);
             cx.expect_reject("blind-sig-through-plain-verify", acc, || "issued without commitment".into())?;
         }
+        // the degenerate blind signature: nothing committed, nothing from the signer, every spelling of "nothing"
+        let degenerate: &[(&str, Option<&[Vec<u8>]>)] = if l <= 1 || c.mut_seed % 8 == 0 { &[("None", None), ("Some([])", Some(&[]))] } else { &[] };
+        for &(spelling, sm) in degenerate {
+            if let Ok(bsig) = BlindSignature::<BBSplus<CS>>::blind_sign(sk, pk, None, hdr, sm) {
+                if let Ok(p) = Signature::<BBSplus<CS>>::from_bytes(&bsig.to_bytes()) {
+                    let acc = p.verify(pk, None, hdr).is_ok() || p.verify(pk, Some(&msgs[..0]), hdr).is_ok();
+                    cx.expect_reject("blind-sig-through-plain-verify", acc, || format!("issued without commitment and without messages ({})", spelling))?;
+                }
+            }
+            if let Ok((com0, _)) = Commitment::<BBSplus<CS>>::commit(None) {
+                if let Ok(bsig) = BlindSignature::<BBSplus<CS>>::blind_sign(sk, pk, Some(&com0.to_bytes()), hdr, sm) {
+                    if let Ok(p) = Signature::<BBSplus<CS>>::from_bytes(&bsig.to_bytes()) {
+                        let acc = p.verify(pk, None, hdr).is_ok();
+                        cx.expect_reject("blind-sig-through-plain-verify", acc, || format!("issued on a commitment to no messages, no signer messages ({})", spelling))?;
+                    }
+                }
+            }
+        }
+        // and the plain header-only signature through the blind verifier
+        if let (false, Ok(ps)) = (degenerate.is_empty(), Signature::<BBSplus<CS>>::sign(None, sk, pk, hdr)) {
+            if let Ok(bs) = BlindSignature::<BBSplus<CS>>::from_bytes(&ps.to_bytes()) {
+                let acc = bs.verify_blind_sign(pk, hdr, None, None, None).is_ok() || bs.verify_blind_sign(pk, hdr, Some(&msgs[..0]), Some(&msgs[..0]), None).is_ok();
+                cx.expect_reject("plain-sig-through-blind-verify", acc, || "header-only signature, nothing committed".into())?;
+            }
+        }
         let cm = vec![b"committed".to_vec()];
         if let Ok((com, _bf)) = Commitment::<BBSplus<CS>>::commit(Some(&cm)) {
             if let Ok(bsig) = BlindSignature::<BBSplus<CS>>::blind_sign(sk, pk, Some(&com.to_bytes()), hdr, Some(&msgs)) {
@@ -388,7 +413,7 @@ pub fn run(ctx: &Ctx, rep: &Report) -> Meta {
     Meta {
         rule: "honest (suite, key, header, msgs, signature) then the mutation catalogue enumerated per case: message byte change / delete / prefix at every position, \
                insert (random, empty, neighbour) at every position 0..=L, extension by 1..=3, swap and replace-by-other of every pair with different contents (all pairs for L<=12), \
-               header edits as octet strings, pk in {other key, pk+G2, -pk}, every single-bit flip of the 80 signature octets (all 640 for L<=12), cross-suite, cross-interface in both directions; \
+               header edits as octet strings, pk in {other key, pk+G2, -pk}, every single-bit flip of the 80 signature octets (all 640 for L<=12), cross-suite, cross-interface in both directions (including the degenerate blind signature without commitment and without messages under every spelling of 'nothing', and the header-only plain signature through the blind verifier); \
                the same catalogue under contention in a cold process, re-priming with the honest verification before the spelling / suite / interface families, all pairs swapped for half of the fixed shapes up to L = 33; oracle: every mutated verification (or decoding) returns Err; non-trivial = honest case with >= 5 mutation families executed; evaluations = mutated verifications"
             .into(),
         assumptions: vec![
